@@ -468,7 +468,14 @@ def rule_cleanup(run):
     finder = gen.func("ConvertInstance.cleanup_unused.<locals>.find_used_temp")
     remover = gen.func("ConvertInstance.cleanup_unused.<locals>.remove_unused_assignments")
     t = P.T(finder.node)
-    ok = "access.is_read()" in t and "isinstance(obj, Temporary)" in t and "used_temporaries.add(root)" in t.replace("obj._root", "root") and "_root" in t
+    # the set of used roots, whatever it is called: the set the removal guard tests (`root not in <set>`)
+    used_sets = {b["__u"] for _n, b in P.find(remover.node, "__r not in __u")}
+    if len(used_sets) != 1:
+        raise AnalysisError(f"cleanup_unused: removal guard `root not in <used set>` not recognised ({sorted(used_sets)})")
+    used = next(iter(used_sets))
+    marks = P.has(finder.node, "__u.add(obj._root)", {"__u": used}) or any(
+        P.has(finder.node, "__r = obj._root", {"__r": b["__r"]}) for _n, b in P.find(finder.node, "__u.add(__r)", {"__u": used}))
+    ok = "access.is_read()" in t and "isinstance(obj, Temporary)" in t and marks
     run.ob(ok, "cleanup_unused.find_used_temp", file=gen.rel, line=finder.node.lineno, detail="collect-reads",
            expected="every read (access.is_read()) of a Temporary marks its root as used", found="ok" if ok else t[:120])
     applied = [c for c in calls_in(cu.node) if c.args and dotted(c.args[0]) == "find_used_temp"]
@@ -487,7 +494,7 @@ def rule_cleanup(run):
         n_removals += 1
         guarded = False
         for anc in pm.ancestors(r):
-            if isinstance(anc, ast.If) and "not in used_temporaries" in P.T(anc.test):
+            if isinstance(anc, ast.If) and P.has(anc.test, "__r not in __u", {"__u": used}):
                 guarded = True
             if anc is remover.node:
                 break
